@@ -118,6 +118,21 @@ def gen_ctor_cases(ctx):
     for _ in range(200 if th else 40):
         enc = J.gen_fx(rng, J.safe_float)
         add("FXRates::try_new", "fxrates", 15, enc)
+    # LARGE markets (13 .. 24 currencies; chains, stars, random trees): a value, never an abort, whatever the size
+    import fxgen
+    for n in ([13, 15, 16, 17, 20, 24] if not th else list(range(13, 25))):
+        for shape in ("chain", "star", "random"):
+            cs = rng.sample(fxgen.CCYS, n)
+            enc = [n - 1]
+            for i in range(1, n):
+                a = cs[i - 1] if shape == "chain" else cs[0] if shape == "star" else cs[rng.randrange(i)]
+                b = cs[i]
+                if rng.random() < 0.5:
+                    a, b = b, a
+                enc += ename(a) + ename(b) + [0, J.f2b(float(rng.choice([1.5, 0.25, 110.0, 0.9, 7.0])))] + [0]
+            enc += ([1] + ename(rng.choice(cs))) if rng.random() < 0.5 else [0]
+            enc += [rng.choice([0, 1, 2]), 0]
+            add("FXRates::try_new (large market)", "fxrates", 15, enc)
     ccy = ["usd", "eur", "gbp", "jpy", "nok"]
     for _ in range(200 if th else 40):
         nq = rng.randint(0, 5)
